@@ -12,12 +12,140 @@ import json
 import math
 import os
 
+import re
+
 import numpy
 
+import vlib
 from vlib import cnat, cfloat, clist, copt
 
 RTOL = 1e-9
 ATOL = 1e-12
+
+
+# ---------------------------------------------------------------------------------------------
+# tie (T): regenerate coq/Gen/C13_gen.v from the working tree (harness/c13_py2coq.py)
+# ---------------------------------------------------------------------------------------------
+GEN = os.path.join(vlib.COQ, "Gen", "C13_gen.v")
+
+
+def _typechecks(txt):
+    """does the regenerated text compile?  -> (ok, line number of the first error or None)"""
+    import shutil
+    import subprocess
+    import tempfile
+    d = tempfile.mkdtemp(prefix="c13gen_")
+    try:
+        fn = os.path.join(d, "C13_gen_probe.v")
+        with open(fn, "w") as f:
+            f.write(txt)
+        p = subprocess.run(["timeout", "300", "coqc", "-Q", vlib.COQ, "DV", "-w", "none", fn], cwd=d,
+                           stdout=subprocess.PIPE, stderr=subprocess.STDOUT, text=True)
+        if p.returncode == 0:
+            return True, None
+        m = re.search(r'line (\d+), characters', p.stdout)
+        return ("Error" not in p.stdout), (int(m.group(1)) if m else None)   # killed without a Coq error: no verdict
+    finally:
+        shutil.rmtree(d, ignore_errors=True)
+
+
+def regen(repo=None):
+    """Returns (ok, message, status) -- status: unit -> None (translated) | Refuse (the unit is an alias of the hand
+    model); ok is False when nothing could be translated.  A regenerated definition that does not type-check counts as
+    a refusal of that unit."""
+    import c13_py2coq
+    repo = repo or vlib.REPO
+    forced = tuple(x for x in os.environ.get("C13_FORCE_REFUSE", "").split(",") if x)
+    extra = {}
+    try:
+        txt, status = c13_py2coq.translate_repo(repo, forced)
+        if os.path.exists(os.path.join(vlib.COQ, "Model", "C13_GenRt.vo")):
+            for _ in range(len(status)):
+                ok, line = _typechecks(txt)
+                if ok:
+                    break
+                heads = [(i + 1, l) for i, l in enumerate(txt.split("\n")[:line or 0]) if l.startswith("Definition gen_")]
+                bad = None
+                if heads:
+                    bad = [k for k in c13_py2coq.ORDER if heads[-1][1].startswith(c13_py2coq.HEADS[k].split(" {")[0].split(" (")[0] + " ")]
+                    bad = bad[0] if bad else None
+                if bad is None or bad in extra:
+                    raise RuntimeError("regenerated text does not compile (line %s)" % line)
+                extra[bad] = c13_py2coq.Refuse("FunctionDef", "the regenerated definition does not type-check")
+                txt, status = c13_py2coq.translate_repo(repo, forced + tuple(extra))
+                for k, v in extra.items():
+                    status[k] = v
+    except Exception as e:  # noqa  (a translator crash is a refusal of everything: fail closed)
+        r = c13_py2coq.Refuse("Module", "translator error %s: %s" % (type(e).__name__, e))
+        txt, status = c13_py2coq.translate_source("\x00")     # all placeholders
+        status = {k: r for k in status}
+    with vlib.BuildLock():
+        os.makedirs(os.path.dirname(GEN), exist_ok=True)
+        old = open(GEN).read() if os.path.exists(GEN) else None
+        if old != txt:
+            with open(GEN, "w") as f:
+                f.write(txt)
+    names = c13_py2coq.NAMES
+    done = [names[k] for k in c13_py2coq.ORDER if status[k] is None]
+    refused = ["%s (%s)" % (names[k], status[k]) for k in c13_py2coq.ORDER if status[k] is not None]
+    msg = "regenerated: %s" % (", ".join(done) or "nothing")
+    if refused:
+        msg += "; translator refused: " + "; ".join(refused)
+    return bool(done), msg, status
+
+
+def tie_T(run):
+    """Regenerate, re-prove `regenerated = hand model` and the theorems on the regenerated definitions.
+    Returns (check function of the correspondence, requires, translated-but-not-proved flag)."""
+    import c13_py2coq
+    names = c13_py2coq.NAMES
+    ok, msg, status = regen()
+    refused = {k: v for k, v in status.items() if v is not None}
+    done = [names[k] for k in c13_py2coq.ORDER if status[k] is None]
+    run.extra_cov["regenerated_functions"] = done
+    run.extra_cov["translator_refused"] = {names[k]: str(v) for k, v in refused.items()}
+    for k, v in refused.items():
+        run.notes.append("tie: correspondence-only (translator refused %s at line %s in %s: %s)"
+                         % (v.node, v.line, names[k], v.why))
+    if not ok:
+        run.extra_cov["tie"] = "correspondence-only (%s)" % msg
+        return "check", [], False
+    gen_ok = run.build_props(props="Props/C13_gen.v", extra=["Corr/C13_gen.v"])
+    if gen_ok:
+        run.notes.append("tie: regenerated (%s)" % ", ".join(done))
+        run.extra_cov["tie"] = ("translation (regenerated units proved equal to the hand model: %s) + correspondence%s; "
+                                "the matrix statements of update / generate / __init__: correspondence only"
+                                % (", ".join(done), "; correspondence-only for " + ", ".join(
+                                    sorted(names[k] for k in refused)) if refused else ""))
+        run.trusted.append("translator harness/c13_py2coq.py with its signature tables (attribute kinds, params.get keys, which "
+                           "attribute version a fragment of update reads) and the vocabulary coq/Model/C13_GenRt.v (numpy.arange / "
+                           "log / ones / sum / linalg.norm, max / min, float(<), `**` with an integral exponent as repeated "
+                           "multiplication, the decimal reading of float literals); the regenerated definitions are proved equal to "
+                           "the hand model (Proofs/C13_gen_equiv.v) and evaluated against the implementation on every run")
+        return "check_both", ["From DV Require Import Corr.C13_gen."], False
+    run.extra_cov["tie"] = "translator succeeded but the regenerated definitions are no longer (provably) the model"
+    try:        # name the equivalence lemma / theorem that no longer checks
+        src = {}
+        for w in (run.broken[-1].get("where") or []) if run.broken else []:
+            m = re.match(r"(.+\.v):(\d+)$", w)
+            if not m:
+                continue
+            fn, line = m.group(1), int(m.group(2))
+            if fn not in src:
+                src[fn] = open(os.path.join(vlib.COQ, fn)).read().split("\n")
+            names_ = re.findall(r"(?m)^\s*(?:Lemma|Theorem)\s+([A-Za-z0-9_']+)", "\n".join(src[fn][:line]))
+            if names_:
+                run.notes.append("tie (T) broke at %s (%s:%d): the regenerated definition is not provably the hand model"
+                                 % (names_[-1], fn, line))
+                run.extra_cov["broken_equivalence"] = names_[-1]
+    except Exception:  # noqa
+        pass
+    try:        # keep the offending text for the replay
+        with open(os.path.join(run.rundir, "C13_gen.v.broken"), "w") as f:
+            f.write(open(GEN).read())
+    except OSError:
+        pass
+    return "check", [], True
 
 
 # ---------------------------------------------------------------------------------------------
@@ -214,6 +342,8 @@ def main(run):
     run.build_props()                                  # Props/C13.v (mathcomp, algebraic model)
     run.build_props(props="Props/C13_exec.v")         # list model + Reals instance
     run.build_props(props="Props/C13_refine.v")       # list model (at any real closed field) refines the algebraic model
+    # tie (T): regenerate Gen/C13_gen.v from the working tree, re-prove `regenerated = model` and the theorems on it
+    gen_check, gen_reqs, gen_unproved = tie_T(run)
     rng = run.rng
     nprng = numpy.random.RandomState(rng.randrange(2 ** 31))
 
@@ -997,7 +1127,66 @@ def main(run):
                 "diagD_has_nan_or_zero": bool(numpy.any(~numpy.isfinite(sb.diagD)) or numpy.any(sb.diagD <= 1e-7))}
     except Exception as e:  # noqa
         stats["boundary_forgetting_rates"] = "raised %s" % type(e).__name__
+    if gen_unproved:
+        # the regenerated definitions are no longer provably the model: search beyond the regular sizes for an input
+        # on which the implementation leaves the property / the model (large dimensions and parent numbers, long runs)
+        n0 = sum(len(v) for v in terms.values())
+        for dim in (33, 64, 100, 257):
+            s = params_case(dim, 4, {})                # one construction per dimension (eigh), then computeParams again
+            if s is None:
+                continue
+            for lam in (5, 9, 64, 300, 700, 2100):
+                for sch in SCHEME:
+                    for kw in ({"weights": sch}, {"weights": sch, "mu": rng.randint(1, lam)}):
+                        s.lambda_ = lam
+                        case = {"kind": "params-recomputed", "dim": dim, "lambda_": lam, "kargs": dict(kw)}
+                        run.note_case(case)
+                        if not impl(lambda: s.computeParams(kw), "computeParams", case)[0]:
+                            continue
+                        P = oracle_params(s, kw, case, "computeParams (wide search)")
+                        add("params", "CParams %s %s %s %s %s" % (cnat(dim), cnat(lam), cfloat(P["chiN"]), ckargs(kw), cparams(P)), case)
+        for _ in range(run.scale(8, 40)):
+            guard(one_run, rng.choice([33, 64, 100, 130]), False, rng.randint(2, 6))
+        for _ in range(run.scale(3, 12)):
+            guard(one_run, rng.randint(2, 8), True, rng.randint(60, 120))
+        run.notes.append("tie (T) broke: %d wide cases (dim up to 257, lambda up to 2100, runs of 60..120 generations, oracle-only "
+                         "runs at dim 33..130) searched in addition" % (sum(len(v) for v in terms.values()) - n0))
     run.extra_cov["c13"] = stats
+    shards = {"params": 400, "init": 60, "update": 40, "gen": 80}
+    reqs = ["From Coq Require Import Floats."]
+    gen_evaluated = 0
     for g in ("params", "init", "update", "gen"):
-        run.correspond(g, "C13", terms[g], cases[g], shard={"params": 400, "init": 60, "update": 40, "gen": 80}[g],
-                       requires=["From Coq Require Import Floats."])
+        # the regenerated definitions are evaluated next to the hand model (check_both) on every params / init / update case
+        run.correspond(g, "C13", terms[g], cases[g], shard=shards[g], check=gen_check if g != "gen" else "check",
+                       requires=reqs + (gen_reqs if g != "gen" else []))
+        if gen_check != "check" and g != "gen":
+            gen_evaluated += len(terms[g])
+    run.extra_cov["cases_also_evaluated_on_regenerated_definitions"] = gen_evaluated
+    if gen_unproved:
+        # diagnosis: do the regenerated definitions (translated, not provably the model) agree with the implementation?
+        ok_, out = vlib.make_targets(["Corr/C13_gen.vo"])
+        if ok_:
+            traces, ndis = run.traces, len(run.disagreements)
+            ng, nt = 0, 0
+            try:
+                for g in ("params", "init", "update"):
+                    bad = run.correspond("diagnosis_regenerated_" + g, "C13", terms[g], cases[g], check="check_gen",
+                                         requires=reqs + ["From DV Require Import Corr.C13_gen."], shard=shards[g] * 4)
+                    if run.corr_groups.get("diagnosis_regenerated_" + g, {}).get("errors"):
+                        ng = None
+                    elif ng is not None:
+                        ng += len(bad)
+                    nt += len(terms[g])
+            except Exception as e:  # noqa
+                ng = None
+                run.notes.append("diagnosis step failed: %r" % (e,))
+            finally:
+                run.traces = traces
+                del run.disagreements[ndis:]
+                for g in ("params", "init", "update"):
+                    run.corr_groups.pop("diagnosis_regenerated_" + g, None)
+            run.notes.append("diagnosis: the regenerated definitions (not provably equal to the model) disagree with the "
+                             "implementation on %s of %d cases" % (ng, nt))
+            run.extra_cov["regenerated_vs_implementation"] = {"sampled": nt, "disagree": ng}
+        else:
+            run.notes.append("diagnosis: the regenerated definitions do not compile: " + out[-400:])
